@@ -25,7 +25,14 @@ stdin : JSON dict(mode=..., cases=[...])
                                    (ForkingPickler.dumps under the spawning flag, fds duplicated) and
                                    unpickled inside process q -> a new handle
         ['write', k, off, bytes]   raw store through handle k
-      -> per op dict(created=[owner, [arena, start, stop], size] | None, backed, expect, reads=[bytes of every handle])
+        ['drop', k]                the process holding handle k drops its last reference to it (a wrapper made by
+                                   BufferWrapper.__init__ has a finaliser that frees the block in its heap; a wrapper
+                                   rebuilt by unpickling has none)
+      -> per op dict(created=[owner, [arena, start, stop], size] | None, backed, expect,
+                     reads=[bytes of every handle, None for a dropped one])
+  mode 'orphan' cases: dict(method, kind, t, value|init) -- REAL processes: the child receives the object inside a holder,
+        the parent then drops its own reference and allocates another object of the same type; what the child reads
+        through its object before/after, and what the parent's new object reads after the child stored through its own
   mode 'chain' cases: dict(method, depth, obj=dict(kind, t, init|value, sync), n) -- REAL processes:
         the driver creates the object and starts a child with it, which works on it and starts a grandchild
         with it, ... (sharedmem_targets.chain_level); every level reports what it saw on entry and at exit
@@ -33,6 +40,7 @@ stdin : JSON dict(mode=..., cases=[...])
 Arenas: a bytearray-backed stub (zero-filled like a fresh mmap) unless real=True.
 """
 import ctypes
+import gc
 import json
 import os
 import sys
@@ -332,6 +340,103 @@ def run_locks():
         except Exception as exc:
             rec['exc'] = '%s: %s' % (type(exc).__name__, str(exc)[:200])
         out.append(rec)
+    # ---- (1b) lock objects that are FALSE in a boolean context (SynchronizedBase.__init__ tests `if lock:`)
+    import threading
+
+    class WrappedLock:
+        """a lock object in its own right (a real RLock behind it)"""
+        def __init__(self, truth=False):
+            self._l = fork.RLock()
+            self._truth = truth
+
+        def acquire(self, *a, **k):
+            return self._l.acquire(*a, **k)
+
+        def release(self):
+            return self._l.release()
+
+        def __enter__(self):
+            return self._l.__enter__()
+
+        def __exit__(self, *a):
+            return self._l.__exit__(*a)
+
+    class BoolFalseLock(WrappedLock):
+        """... whose __bool__ says, e.g., whether it is currently held: False when given"""
+        def __bool__(self):
+            return self._truth
+
+    class LenZeroLock(WrappedLock):
+        """... with a __len__ (say, its number of waiters): 0 when given"""
+        def __len__(self):
+            return 1 if self._truth else 0
+
+    for name, cls, mk, mkraw in _kinds():
+        for lname, L in (('lock object with __bool__ False', BoolFalseLock()), ('lock object with __len__ 0', LenZeroLock()),
+                         ('lock object with __bool__ True', BoolFalseLock(True)), ('lock object with __len__ 1', LenZeroLock(True))):
+            rec = dict(check='truth-value-lock', kind=name, lock=lname, truth=bool(L))
+            try:
+                w = mk(lock=L)
+                rec.update(cls=type(w).__name__, want_cls=cls, same=w.get_lock() is L,
+                           bound=(w.acquire == L.acquire and w.release == L.release),
+                           used_type=type(w.get_lock()).__name__)
+                w2 = sc.synchronized(mkraw(), lock=L)
+                w3 = sc.synchronized(mkraw(), L, fork)
+                rec.update(sync_same=w2.get_lock() is L, sync_pos_same=w3.get_lock() is L)
+                # behaviour: while this thread holds L, can another thread enter `with w.get_lock():` ?
+                got = []
+
+                def other(w=w, got=got):
+                    ok = w.get_lock().acquire(False)
+                    got.append(bool(ok))
+                    if ok:
+                        w.get_lock().release()
+                with L:
+                    t = threading.Thread(target=other)
+                    t.start()
+                    t.join(10)
+                rec['holder_of_L_excludes_wrapper_lock'] = (got == [False])
+            except Exception as exc:
+                rec['exc'] = '%s: %s' % (type(exc).__name__, str(exc)[:200])
+            out.append(rec)
+    # the consequence, deterministically: updater A holds the lock L it passed as lock=, updater B holds get_lock()
+    for lname, L in (('lock object with __bool__ False', BoolFalseLock()), ('lock object with __bool__ True', BoolFalseLock(True))):
+        rec = dict(check='truth-value-lock-update', kind='Value(i)', lock=lname, truth=bool(L))
+        try:
+            v = sc.Value('i', 0, lock=L)
+
+            def updater_b(v=v):
+                with v.get_lock():
+                    v.value += 1
+            t = threading.Thread(target=updater_b)
+            with L:                       # updater A: `with L: v.value += 1`, B scheduled in the middle
+                tmp = v.value
+                t.start()
+                t.join(0.4)               # B finishes here iff holding L does not exclude it
+                rec['b_ran_inside_a'] = not t.is_alive()
+                v.value = tmp + 1
+            t.join(10)
+            rec.update(final=v.value, expected=2)
+        except Exception as exc:
+            rec['exc'] = '%s: %s' % (type(exc).__name__, str(exc)[:200])
+        out.append(rec)
+    # falsy things that are not locks at all
+    for name, cls, mk, mkraw in _kinds()[:3]:
+        for lname, bad in (('0', 0), ("''", ''), ('[]', [])):
+            rec = dict(check='falsy-non-lock', kind=name, lock=lname)
+            try:
+                mk(lock=bad)
+                rec['ctor'] = 'returned'
+            except AttributeError as exc:
+                rec['ctor'] = 'AttributeError'
+            except Exception as exc:
+                rec['ctor'] = type(exc).__name__
+            try:
+                w2 = sc.synchronized(mkraw(), bad, fork)
+                rec['sync_lock_type'] = type(w2.get_lock()).__name__
+            except Exception as exc:
+                rec['sync_lock_type'] = 'raised ' + type(exc).__name__
+            out.append(rec)
     # ---- (2) pickle round trip as done for a spawn/forkserver child: same semaphore, same storage
     spawn = billiard.get_context('spawn')
     for name, cls, mk, mkraw in _kinds():
@@ -477,6 +582,8 @@ def run_hops_case(c):
                 elif op[0] == 'send':
                     k, q = op[1], op[2]
                     src, o = handles[k]
+                    if o is None:
+                        raise KeyError('handle %d was dropped' % k)
                     with procs[src]:
                         bctx.set_spawning_popen(popen)
                         try:
@@ -501,12 +608,22 @@ def run_hops_case(c):
                         rec['lock_shared'] = (not got) and bool(got_after)
                     del o, o2
                 elif op[0] == 'write':
+                    if handles[op[1]][1] is None:
+                        raise KeyError('handle %d was dropped' % op[1])
                     r = raw_of(handles[op[1]][1])
                     data = bytes(op[3])
                     if op[2] < 0 or op[2] + len(data) > ctypes.sizeof(r):
                         raise ValueError('outside the object')
                     ctypes.memmove(ctypes.addressof(r) + op[2], data, len(data))
                     del r
+                elif op[0] == 'drop':
+                    pi, o = handles[op[1]]
+                    if o is None:
+                        raise KeyError('handle %d was dropped' % op[1])
+                    del o
+                    with procs[pi]:
+                        handles[op[1]] = (pi, None)      # the last reference: a finaliser, if any, runs now
+                        gc.collect()
                 else:
                     raise SystemExit('bad op %r' % (op,))
             except SystemExit:
@@ -515,7 +632,9 @@ def run_hops_case(c):
                 rec['exc'] = type(exc).__name__ + ': ' + str(exc)[:200]
                 out.append(rec)
                 break
-            rec['reads'] = [read_bytes(o) for _, o in handles]
+            rec['reads'] = [None if o is None else read_bytes(o) for _, o in handles]
+            rec['live_blocks'] = [sorted([pr.heap._arenas.index(b[0]), b[1], b[2]] for b in pr.heap._allocated_blocks)
+                                  for pr in procs]
             rec['holders'] = [pi for pi, _ in handles]
             out.append(rec)
     finally:
@@ -567,6 +686,62 @@ def run_chain_case(c):
         p.join(30)
         res['exitcode'] = p.exitcode
         res['final'] = tg.snapshot(o)
+    except Exception as exc:            # reported, judged by the caller
+        res['error'] = '%s: %s' % (type(exc).__name__, str(exc)[:300])
+    finally:
+        signal.alarm(0)
+        signal.signal(signal.SIGALRM, old)
+        if p is not None and p._popen is not None and p.exitcode is None:
+            try:
+                p.terminate()
+            except Exception:
+                pass
+    return res
+
+
+# ---------------------------------------------------------------- the owner drops while a real child still uses the object
+def run_orphan_case(c):
+    import signal
+    import billiard
+    import sharedmem_targets as tg
+    bh.Arena = REAL_ARENA
+    bh.mmap = real_mmap
+    bh.BufferWrapper._heap = bh.Heap()
+    res = dict(case=c)
+
+    def on_alarm(signum, frame):
+        raise TimeoutError('orphan scenario exceeded its time limit')
+    old = signal.signal(signal.SIGALRM, on_alarm)
+    signal.alarm(int(c.get('limit', 60)))
+    p = None
+    try:
+        ctx = billiard.get_context(c['method'])
+        t = c['t']
+        targ = t if t in sc.typecode_to_type else ctype_of(t)
+
+        def make(val):
+            if c['kind'] == 'Value':
+                return sc.Value(targ, val, ctx=ctx) if c.get('sync') else sc.RawValue(targ, val)
+            return sc.Array(targ, val, ctx=ctx) if c.get('sync') else sc.RawArray(targ, val)
+        h = tg.Holder()
+        h.obj = make(c['first'])
+        res['first_block'] = list(raw_of(h.obj)._wrapper._state[0][1:])
+        pc, cc = ctx.Pipe()
+        p = ctx.Process(target=tg.orphan_child, args=(h, cc, c['store']))
+        p.start()
+        cc.close()
+        res['child_saw_on_entry'] = pc.recv() if pc.poll(30) else None
+        h.obj = None                      # the parent's last reference (the Process object holds the holder, not the object)
+        gc.collect()
+        w = make(c['second'])
+        res['second_block'] = list(raw_of(w)._wrapper._state[0][1:])
+        res['second_initial'] = tg.snapshot(w)
+        pc.send('go')
+        res['child_saw_after_parent_allocated'] = pc.recv() if pc.poll(30) else None
+        res['second_after_child_stored'] = tg.snapshot(w)
+        pc.send('bye')
+        p.join(30)
+        res['exitcode'] = p.exitcode
     except Exception as exc:            # reported, judged by the caller
         res['error'] = '%s: %s' % (type(exc).__name__, str(exc)[:300])
     finally:
@@ -635,6 +810,8 @@ if __name__ == '__main__':
         res = [run_hops_case(c) for c in req['cases']]
     elif req['mode'] == 'chain':
         res = [run_chain_case(c) for c in req['cases']]
+    elif req['mode'] == 'orphan':
+        res = [run_orphan_case(c) for c in req['cases']]
     else:
         res = run_procs(req)
     bh.Arena = REAL_ARENA
